@@ -437,6 +437,13 @@ func CheckC17(s Script, tr Trace) error {
 	if !tr.Terminated {
 		return fmt.Errorf("GracefulStop did not complete after every remaining input was closed and every item released: %s", tr.EpilogueStuck)
 	}
+	// graceful termination keeps its meaning across additions and removals (items of removed
+	// priorities stay accounted for until fed back)
+	if s.Fault == nil {
+		if err := CheckC07(s, tr); err != nil {
+			return err
+		}
+	}
 	// everything read was delivered
 	for _, st := range tr.InStat {
 		if st.Delivered != st.Reads {
